@@ -47,7 +47,7 @@ MANIFEST = dict(
          "that the signature verifies, that host and every x-amz-* header are signed, that the credential scope is "
          "key-id/date/region/service with the date equal to the date part of the returned timestamp, that the timestamp is the UTC rendering of a "
          "clock reading (the wrapped clock ticks between reads and TZ is EST5EDT), and that the content hash is SHA-256 of the body. Exploration is "
-         "the right level: the input space is unbounded strings and bytes; the oracle is an exact, independent implementation.",
+         "the right level: the input space is unbounded strings and bytes; the oracle is an exact, independent implementation. Methods include lower- and mixed-case tokens, the AWS_* environment variables are set, and one case in eight signs for another scope, has an allocation of this request refused and verifies the retry.",
     note="Trusted: clang 14 + ASan/UBSan, rapidcheck, OpenSSL 3.0. Fields are restricted to the URI-unreserved alphabet and paths start with '/' "
          "(the interface does no percent-encoding). Clock readings are limited to 4-digit years.",
 )
